@@ -131,6 +131,8 @@ def skeletons(tier):
     # root viewBox variants
     for par in (None, "none", "xMinYMax slice", "xMaxYMid meet"):
         add("vb/%s" % par, SV([R(), G([{"t": "line"}], tr=T2)], size="attr", vb=True, par=par))
+    add("vb/none_rounded", SV([{"t": "rect_round"}], size="attr", vb=True, par="none"))
+    add("g/scale_rounded", SV([G([{"t": "rect_round"}, {"t": "rect_round", "tr": T1}], tr=T2)], size="attr"))
     add("vb/default_size", SV([R(), {"t": "polygon"}], size="none", vb=True))
     add("novb/default_size", SV([R(units={"x": "%", "width": "%"})], size="none"))
     add("vb/xy", SV([R()], size="attr", vb=True, xy=True))
@@ -151,6 +153,9 @@ def skeletons(tier):
     add("nested/plain", SV([SV([R()], size="attr", xy=True), {"t": "line"}], size="attr"))
     add("nested/vb", SV([SV([R(), {"t": "polygon"}], size="attr", xy=True, vb=True, par="xMidYMid slice")], size="attr", vb=True))
     add("nested/vb_then_sibling", SV([SV([R()], size="attr", xy=True, vb=True), R(units={"x": "%", "width": "%"}), R()], size="attr"))
+    # leaving nested viewports one by one: percentages refer to the viewport that is current again
+    add("nested/two_deep_then_pct", SV([SV([SV([R()], size="attr", xy=True, vb=True), R(units={"x": "%", "width": "%"})], size="attr", xy=True, vb=True),
+                                        R(units={"x": "%", "y": "%", "width": "%", "height": "%"})], size="attr"))
     add("nested/in_g", SV([G([SV([{"t": "path"}], size="attr", xy=True, vb=True, par="none")], tr=T2), R()], size="attr"))
     add("nested/rect_without_xy", SV([SV([{"t": "rect_noxy"}], size="attr", xy=True)], size="attr"))
     add("nested/pct_child", SV([SV([R(units={"x": "%", "y": "%", "width": "%", "height": "%"})], size="attr", xy=True, vb=True)], size="attr"))
